@@ -962,7 +962,8 @@ impl<'a, 'b, W: Write> Serializer for &'a mut YamlSerializer<'b, W> {
     }
 
     fn serialize_char(self, v: char) -> Result<()> {
-        self.write_space_if_pending()?;
+        // `serialize_str` writes the deferred space itself and needs to know that it is in
+        // mapping-value position when it chooses a block style.
         let mut buf = [0u8; 4];
         self.serialize_str(v.encode_utf8(&mut buf))
     }
